@@ -702,6 +702,19 @@ func (f *Frame) findLoops() {
 				}
 			}
 		}
+		if len(f.contract.LoopInv) > 0 {
+			for _, li := range f.loops {
+				if li.spec != nil && li.spec.NoDefault {
+					continue
+				}
+				ns := &LoopSpec{Key: li.key}
+				if li.spec != nil {
+					*ns = *li.spec
+				}
+				ns.Invariants = append(append([]Clause{}, f.contract.LoopInv...), ns.Invariants...)
+				li.spec = ns
+			}
+		}
 		for k := range f.contract.Loops {
 			if !used[k] {
 				var have []string
